@@ -15,7 +15,7 @@ import (
 func init() {
 	register(&propSpec{ID: "C12", Run: checkC12,
 		Explanation: "State partition and wiring: in the group loop of RunOnce the state handed to the scan is the map entry under the same loop element's name; every cloud-group lookup uses the current group's own cloud_provider_group_name; each group's listers are built from that group's own options (label key/value; the default filter iff the name is \"default\") and stored under its own name; the NodeGroupState literal takes its lister from the entry of its own name; no function reachable from the scan body stores into a package variable, a Controller field or another group's state (store census: every store is rooted in a local, in the scanned group / its options / its provider object, or in a freshly fetched object); inside the group loop RunOnce returns only when the cloud group is missing or on *NodeNotInNodeGroup and never breaks; acted-on nodes come from the group's own lister (C09.R2).",
-		RuleText:    "R1 loop wiring, R2 cloud lookups (4 sites), R3 lister wiring, R4 store census over scan-reachable functions, R5 containment, R6 targets, R7 the group filters' boolean functions (a pod / node is counted for the group iff it selects / carries the group's own label; the default group iff it selects nothing)",
+		RuleText:    "R1 loop wiring, R2 cloud lookups (4 sites), R3 lister wiring, R4 store census over scan-reachable functions, R5 containment, R6 targets, R7 the group filters' boolean functions (a pod / node is counted for the group iff it selects / carries the group's own label; the default group iff it selects nothing), R8 node emptiness is judged from the group's own pods",
 		Assumptions: []string{"configuration aliasing (two groups with the same label or cloud group), metrics labels and the shared informer cache are not decided; the metamorphic 'same actions' reading follows from the partition only under determinism of the shared inputs"}})
 }
 
@@ -140,6 +140,9 @@ func checkC12(ck *Check) {
 	ck.actionTargets("C12.R6")
 	// R7 the per-group filters select exactly the group's own pods and nodes (decided as C14)
 	ck.filterPredicates(func(int) string { return "C12.R7" })
+	// R8 node emptiness (what the reapers act on) is judged from the scanned group's own pods only
+	// (decided as C01.R6)
+	ck.emptinessShape("C12.R8")
 }
 
 func (ck *Check) listerWiring(rule string) {
@@ -321,6 +324,21 @@ func (ck *Check) listerWiring(rule string) {
 				optsT = spilledParamOrigin(ctx, optsT)
 				okv := false
 				if lt.Kind == "lookup" && optsT != nil {
+					k := lt.Args[1]
+					// the key is the Name component of the very value stored as Opts
+					if optsT.Kind == "struct" {
+						if st, ok := a.TOptions.Underlying().(*types.Struct); ok {
+							for i := 0; i < st.NumFields() && i < len(optsT.Args); i++ {
+								if st.Field(i) == fName && optsT.Args[i] != nil && optsT.Args[i].Key() == k.Key() {
+									okv = true
+								}
+							}
+						}
+					} else if mkField(optsT, fName).Key() == k.Key() {
+						okv = true
+					}
+				}
+				if !okv && lt.Kind == "lookup" && optsT != nil {
 					k := lt.Args[1]
 					// key = <same options>.Name ; options may be deref(alloc) vs alloc
 					if k.Kind == "field" && k.Obj == fName {
